@@ -322,7 +322,7 @@ add("S4", "keep", CORE, "GroupBy._apply_gb_reduction", "        sortkey = self._
 RED = "GroupBy._apply_gb_reduction"
 add("P1", "break", NB, "_apply_cumulative", "    if orig_dtype.kind in 'mM':\n        result = result.astype(orig_dtype)\n", "    elif orig_dtype.kind in 'mM':\n        result = result.astype(orig_dtype)\n", name="P1 cumulative restore becomes the elif of the null-key post-fill")
 add("P1", "break", NB, "_apply_cumulative", "    if orig_dtype.kind in 'mM':\n        result = result.astype(orig_dtype)\n", "", name="P1 cumulative restore deleted")
-add("P1", "break", NB, "_group_func_wrap", "    if orig_type.kind in 'mM':\n        result = result.astype(orig_type)\n", "    if orig_type.kind in 'mM' and (not counting):\n        result = result.astype(orig_type)\n    if counting:\n        pass\n", name="P1 reduction restore under an extra test", accept_error=True)
+add("P1", "break", NB, "_group_func_wrap", "    if orig_type.kind in 'mM':\n        result = result.astype(orig_type)\n", "    if orig_type.kind in 'mM' and (not counting):\n        result = result.astype(orig_type)\n    if counting:\n        pass\n", name="P1 reduction restore under an extra test")
 add("P1", "break", NB, "_group_func_wrap", "    if orig_type.kind in 'mM':\n        result = result.astype(orig_type)\n", "    if orig_type.kind == 'M':\n        result = result.astype(orig_type)\n", name="P1 timedeltas not restored")
 add("P1", "break", NB, "group_mean", "    if orig_type.kind in 'mM':\n        mean = mean.astype(orig_type)\n", "", name="P1 group_mean restore deleted")
 add("P1", "break", NB, "_apply_rolling", "        else:\n            result = result.view(orig_dtype)\n", "        else:\n            pass\n", name="P1 rolling restore deleted on the non-diff arm")
@@ -333,20 +333,20 @@ add("P10", "break", NB, "_apply_rolling", "result = result.view(f'm8[{np.datetim
 add("P10", "break", NB, "_apply_rolling", "            result = result.view(orig_dtype)\n", "            result = result.view('M8[ns]')\n", name="P10 restore hard-codes datetime64[ns]")
 add("P10", "keep", NB, "_apply_rolling", "result = result.view(f'm8[{np.datetime_data(orig_dtype)[0]}]')", "result = result.view(np.dtype(f'timedelta64[{np.datetime_data(orig_dtype)[0]}]'))", name="P10 unit taken from the original dtype, other spelling")
 add("P2", "break", CORE, RED, "            if func_is_mean:\n                count_df = self._add_margins(count_df, margins=margins, func_name='sum')\n", "", name="P2 count frame gets no margins")
-add("P2", "break", CORE, RED, "count_df = self._add_margins(count_df, margins=margins, func_name='sum')", "count_df = self._add_margins(count_df, margins=margins, func_name='count')", name="P2 count margins aggregated by count", accept_error=True)
+add("P2", "break", CORE, RED, "count_df = self._add_margins(count_df, margins=margins, func_name='sum')", "count_df = self._add_margins(count_df, margins=margins, func_name='count')", name="P2 count margins aggregated by count")
 add("P2", "break", CORE, RED, "        if margins:\n            result_df = self._add_margins(result_df, margins=margins, func_name=effective_func_name)\n            if func_is_mean:\n                count_df = self._add_margins(count_df, margins=margins, func_name='sum')\n        if func_is_mean:\n            with np.errstate(invalid='ignore', divide='ignore'):\n                result_df = pd.DataFrame({k: mean_from_sum_count(result_df[k], count_df[k].reindex(result_df.index)) for k in result_df})\n",
     "        if func_is_mean:\n            with np.errstate(invalid='ignore', divide='ignore'):\n                result_df = pd.DataFrame({k: mean_from_sum_count(result_df[k], count_df[k].reindex(result_df.index)) for k in result_df})\n        if margins:\n            result_df = self._add_margins(result_df, margins=margins, func_name=effective_func_name)\n",
     name="P2 mean divided before the margins are added")
-add("P2", "break", CORE, RED, "            if func_is_mean:\n                with np.errstate(invalid='ignore', divide='ignore'):\n                    result_columns = [mean_from_sum_count(", "            if func_is_mean and False:\n                with np.errstate(invalid='ignore', divide='ignore'):\n                    result_columns = [mean_from_sum_count(", name="P2 transform path broadcasts sums for mean", accept_error=True)
+add("P2", "break", CORE, RED, "            if func_is_mean:\n                with np.errstate(invalid='ignore', divide='ignore'):\n                    result_columns = [mean_from_sum_count(", "            if func_is_mean and False:\n                with np.errstate(invalid='ignore', divide='ignore'):\n                    result_columns = [mean_from_sum_count(", name="P2 transform path broadcasts sums for mean")
 add("P3", "break", CORE, RED, "observed = self.ikey_count > 0", "observed = self.key_count > 0", name="P3 label-indexed Series used positionally")
-add("P3", "break", CORE, RED, "observed = self.count_ikey(mask=mask) > 0", "observed = self.ikey_count > 0", name="P3 masked recount ignores the mask", accept_error=True)
+add("P3", "break", CORE, RED, "observed = self.count_ikey(mask=mask) > 0", "observed = self.ikey_count > 0", name="P3 masked recount ignores the mask")
 add("P3", "break", CORE, RED, "                if mask is not None:\n                    observed = self.count_ikey(mask=mask) > 0\n                else:\n                    observed = self.ikey_count > 0\n", "                pass\n", name="P3 all-null groups dropped from the result")
 add("P4", "break", CORE, RED, "            result_df = result_df.iloc[sortkey]\n            count_df = count_df.iloc[sortkey]\n", "            count_df = count_df.iloc[sortkey]\n", name="P4 unfiltered arm forgets to sort the result frame")
 add("P4", "break", CORE, RED, "                observed = sortkey[observed[sortkey]]\n", "                observed = np.flatnonzero(observed)\n", name="P4 observed arm loses the sort permutation")
 add("P5", "break", CORE, RED, "result_columns = [result[self.group_ikey] for result in result_columns]", "result_columns = [result[self._labels_argsort][self.group_ikey] for result in result_columns]", name="P5 label-sorted results indexed by first-appearance codes")
 add("P6", "break", CORE, ACROSS, "ngroups=len(pointer) + 1 if pointer is not None else self.ngroups + 1", "ngroups=len(pointer) if pointer is not None else self.ngroups", name="P6 no null slot in the per-chunk targets")
 add("P6", "break", CORE, ACROSS, "len(self._result_index) + 1)", "len(self._result_index))", name="P6 no null slot in the merged target")
-add("P6", "break", CORE, "GroupBy._build_arg_dict_for_function", "ngroups=self.ngroups + 1", "ngroups=self.ngroups", name="P6 rolling/cumulative state without null slot", accept_error=True)
+add("P6", "break", CORE, "GroupBy._build_arg_dict_for_function", "ngroups=self.ngroups + 1", "ngroups=self.ngroups", name="P6 rolling/cumulative state without null slot")
 add("P7", "break", CORE, "GroupBy._factorize_group_key_in_chunks", "        if self._sort:\n            self._result_index = self._result_index.sort_values()\n            self._index_is_sorted = True\n", "        self._index_is_sorted = True\n        if self._sort:\n            self._result_index = self._result_index.sort_values()\n", name="P7 index marked sorted without sorting")
 add("P7", "break", CORE, "GroupBy._factorize_group_key_in_chunks", "            unique_list = [mono_uniques, *unique_list]\n", "            unique_list = [*unique_list, mono_uniques]\n", name="P7 monotonic uniques appended at the other end")
 add("P7", "break", CORE, "GroupBy._factorize_group_key_in_chunks", "        arg_list = [(pd.Index(self.result_index), arr) for arr in unique_list]\n        self._group_key_pointers = parallel_map(get_indexer, arg_list)\n", "", also=((CORE, "GroupBy._factorize_group_key_in_chunks", "        if self._sort:\n", "        arg_list = [(pd.Index(self.result_index), arr) for arr in unique_list]\n        self._group_key_pointers = parallel_map(get_indexer, arg_list)\n        if self._sort:\n"),), name="P7 pointer tables computed before the labels are sorted")
@@ -355,7 +355,7 @@ add("P8", "break", NB, "_apply_cumulative", "        result[np.asarray(group_key
 add("P9", "break", CORE, INIT, "        self._result_index = self._result_index.set_names(group_key_names)", "        pass", name="P9 key names never assigned")
 add("P9", "break", CORE, INIT, "        self._result_index = self._result_index.set_names(group_key_names)", "        if len(group_key_list) > 1:\n            self._result_index = self._result_index.set_names(group_key_names)", name="P9 key names only for multi-key groupings")
 add("P11", "break", CORE, RED, "            if common_index is not None:\n                result_index = common_index\n            else:\n                result_index = pd.RangeIndex(len(self))\n", "            result_index = pd.RangeIndex(len(self))\n", name="P11 transform drops the inputs' index")
-add("P11", "break", CORE, RED, "            if common_index is not None:\n                result_index = common_index\n            else:\n                result_index = pd.RangeIndex(len(self))\n", "            result_index = self.result_index\n", name="P11 transform labelled by the group index", accept_error=True)
+add("P11", "break", CORE, RED, "            if common_index is not None:\n                result_index = common_index\n            else:\n                result_index = pd.RangeIndex(len(self))\n", "            result_index = self.result_index\n", name="P11 transform labelled by the group index")
 add("P1", "keep", NB, "_group_func_wrap", "orig_type", "source_dtype", count=0, name="P1 original-dtype variable renamed")
 add("P1", "keep", NB, "_apply_cumulative", "orig_dtype", "dt0", count=0, name="P1 original-dtype variable renamed (cumulative)")
 
@@ -394,13 +394,13 @@ add("A3m", "break", CORE, "GroupBy.median", "self.apply(values=values, mask=mask
 add("A3m", "break", CORE, "GroupBy.density", "totals = self.sum(values, mask, margins=True)", "totals = self.sum(values, margins=True)", name="A3m density drops mask")
 add("A3m", "break", CORE, "GroupBy.cummin", "self._apply_rolling_or_cumulative_func('cummin', values, mask, skip_na=skip_na)", "self._apply_rolling_or_cumulative_func('cummin', values, skip_na=skip_na)", name="A3m cummin drops mask")
 add("A3m", "break", CORE, "GroupBy._apply_gb_reduction", "results = self._apply_gb_func_across_chunked_group_keys(effective_func_name, value_list=value_list, mask=mask)", "results = self._apply_gb_func_across_chunked_group_keys(effective_func_name, value_list=value_list)", name="A3m reduction drops mask before the kernels")
-add("A3m", "break", CORE, "GroupBy._build_arg_dict_for_function", "shared_kwargs = dict(group_key=self.group_ikey, mask=mask, ngroups=self.ngroups + 1, **kwargs)", "shared_kwargs = dict(group_key=self.group_ikey, ngroups=self.ngroups + 1, **kwargs)", name="A3m rolling/cumulative arg dict drops mask", accept_error=True)
+add("A3m", "break", CORE, "GroupBy._build_arg_dict_for_function", "shared_kwargs = dict(group_key=self.group_ikey, mask=mask, ngroups=self.ngroups + 1, **kwargs)", "shared_kwargs = dict(group_key=self.group_ikey, ngroups=self.ngroups + 1, **kwargs)", name="A3m rolling/cumulative arg dict drops mask")
 add("A3m", "break", NB, "_apply_cumulative", "mask=mask, target=target)", "target=target)", name="A3m cumulative kernel called without mask")
 add("A3c", "break", CORE, "GroupBy.agg", "return func(values, mask=mask, transform=transform, margins=margins, observed_only=observed_only)", "return func(values, mask=mask, transform=transform, margins=margins)", name="A3c agg drops observed_only")
 add("A3c", "break", CORE, "GroupBy.agg", "signature(self.agg).bind(v, agg_func=f, mask=mask, transform=transform, margins=margins, observed_only=observed_only)", "signature(self.agg).bind(v, agg_func=f, mask=mask, transform=transform, observed_only=observed_only)", name="A3c agg list branch drops margins")
 add("A3c", "break", CORE, "GroupBy.ratio", "kwargs = dict(mask=mask, agg_func=agg_func, margins=margins)", "kwargs = dict(mask=mask, agg_func=agg_func)", name="A3c ratio drops margins")
 add("A3c", "break", CORE, "GroupBy.median", "transform=transform)", "transform=False)", name="A3c median ignores transform")
-add("A3c", "break", CORE, "GroupBy.quantile", "self.apply(values=values, func=np.quantile, q=q, mask=mask)", "self.apply(values=values, func=np.quantile, q=0.5, mask=mask)", name="A3c quantile ignores q", accept_error=True)
+add("A3c", "break", CORE, "GroupBy.quantile", "self.apply(values=values, func=np.quantile, q=q, mask=mask)", "self.apply(values=values, func=np.quantile, q=0.5, mask=mask)", name="A3c quantile ignores q")
 add("A3x", "break", CORE, "crosstab", "aggregation = grouper.size(mask=mask, margins=margin_levels)", "aggregation = grouper.size(margins=margin_levels)", name="A3x crosstab counts ignore mask")
 add("A3x", "break", CORE, "crosstab", "grouper.agg(values=values, agg_func=aggfunc, mask=mask, margins=margin_levels)", "grouper.agg(values=values, agg_func='sum', mask=mask, margins=margin_levels)", name="A3x crosstab ignores aggfunc")
 add("A3x", "break", CORE, "crosstab", "grouper.agg(values=values, agg_func=aggfunc, mask=mask, margins=margin_levels)", "grouper.agg(values=values, agg_func=aggfunc, mask=mask)", name="A3x crosstab values branch drops margins")
@@ -425,11 +425,11 @@ add("U1", "break", NB, "_cumulative_reduce", "reduce_func(target[last_seen], val
 add("U1", "break", NB, "_cumulative_reduce", "    group_last_seen = np.full(ngroups, -1)\n", "    group_last_seen = np.full(ngroups, 0)\n", name="U1 initial last-seen cell points at row 0")
 add("U2", "break", NB, "_cumulative_reduce", "            group_last_seen[key] = i\n", "", name="U2 last-seen row never recorded")
 add("U2", "break", NB, "_cumulative_reduce", "            group_last_seen[key] = i\n", "            if not is_null(val):\n                group_last_seen[key] = i\n", name="U2 last-seen row recorded only for non-null values")
-add("U2", "break", NB, "_cumulative_reduce", "            last_seen = group_last_seen[key]\n", "            last_seen = group_last_seen[key]\n            group_count[key] += 0 * i + 1\n", name="U2 count touched before the mask test", accept_error=True)
+add("U2", "break", NB, "_cumulative_reduce", "            last_seen = group_last_seen[key]\n", "            last_seen = group_last_seen[key]\n            group_count[key] += 0 * i + 1\n", name="U2 count touched before the mask test")
 add("F1", "break", FACT, "_monotonic_factorization", "        if x != x:\n            return (i, codes, labels[:n_labels])\n", "", name="F1 null key compared before it is tested")
 add("F1", "break", FACT, "_monotonic_factorization", "    if arr[0] != arr[0]:\n        return (0, codes, labels[:0])\n", "", name="F1 leading null becomes a label")
 add("F1", "break", FACT, "factorize_1d", "pd.factorize(values, use_na_sentinel=True)", "pd.factorize(values, use_na_sentinel=False)", name="F1 pandas route makes NaN a label")
-add("F1", "break", CORE, "GroupBy._factorize_group_key_in_chunks", "codes_list = [mono_codes.astype(np.int64), *codes_list]", "codes_list = [mono_codes, *codes_list]", name="F1 unsigned prefix codes fix the chunked array type", accept_error=True)
+add("F1", "break", CORE, "GroupBy._factorize_group_key_in_chunks", "codes_list = [mono_codes.astype(np.int64), *codes_list]", "codes_list = [mono_codes, *codes_list]", name="F1 unsigned prefix codes fix the chunked array type")
 add("F1", "keep", FACT, "_monotonic_factorization", "        if x != x:\n            return (i, codes, labels[:n_labels])\n        if x < prev:\n            return (i, codes, labels[:n_labels])\n", "        if x != x or x < prev:\n            return (i, codes, labels[:n_labels])\n", name="F1 null test merged into the ordering test (tested first)")
 
 # --------------------------------------------------------------------------------------------- A1 must-validate
@@ -455,7 +455,7 @@ add("A1", "keep", CORE, PRE, "            if not self._key_index.equals(common_i
 add("O1", "break", CORE, "GroupBy._apply_gb_reduction", "        result_len = len(self.result_index)\n", "        result_len = len(self.result_index)\n        value_list[0][0] = 0\n", name="O1 store into the caller's first value array", accept_error=False, expect_func="*")
 add("O1", "break", NB, "_group_func_wrap", "    group_key = _val_to_numpy(group_key)\n    values = _val_to_numpy(values, as_list=True)\n", "    group_key = _val_to_numpy(group_key)\n    group_key.sort()\n    values = _val_to_numpy(values, as_list=True)\n", name="O1 in-place sort of the caller's key array", expect_func="*")
 add("O1", "break", NB, "_apply_cumulative", "    counting = 'count' in operation\n", "    counting = 'count' in operation\n    if mask is not None:\n        mask &= np.asarray(group_key) >= 0\n", name="O1 augmented assignment into the caller's mask", expect_func="*")
-add("O1", "break", NB, "_apply_rolling", "    result = rolling_1d_func(**kwargs)\n", "    result = rolling_1d_func(**kwargs)\n    np.nan_to_num(values[0], copy=False)\n", name="O1 copy=False mutation of the values", expect_func="*", accept_error=True)
+add("O1", "break", NB, "_apply_rolling", "    result = rolling_1d_func(**kwargs)\n", "    result = rolling_1d_func(**kwargs)\n    np.nan_to_num(values[0], copy=False)\n", name="O1 copy=False mutation of the values", expect_func="*")
 add("O1", "keep", NB, "group_mean", "    mean = sum_ / count\n", "    mean = np.divide(sum_, count, out=sum_.astype(float))\n", name="O1 out= into a fresh array")
 add("O1", "break", NB, "_apply_rolling", "    result = rolling_1d_func(**kwargs)\n", "    result = rolling_1d_func(**kwargs)\n    np.putmask(values[0], values[0] < 0, 0)\n", name="O1 np.putmask on the values", expect_func="*")
 add("O1", "break", CORE, "GroupBy.ikey_count", "return self.count_ikey()", "c = self.count_ikey()\n        np.asarray(self._group_ikey)[:1] = 0\n        return c", name="O1 store through a view of the grouping's codes", expect_func="*")
@@ -522,7 +522,7 @@ add("S3b", "break", CORE, INIT, "            self._group_key_pointers = group_ke
 add("R1", "break", NB, "_find_first_or_last_n", "    if not forward:\n        out = out[:, ::-1]\n", "", name="R1 backward scan not flipped back")
 add("R1", "keep", NB, "_find_first_or_last_n", "    if not forward:\n        out = out[:, ::-1]\n", "    if not forward:\n        out = np.fliplr(out)\n", name="R1 flip with np.fliplr")
 add("P17", "break", CORE, "GroupBy._get_row_selection", "result = pd.DataFrame(dict(zip(col_names, value_list)), copy=False).iloc[ilocs].set_index(out_index)", "result = pd.DataFrame(np.column_stack([_val_to_numpy(v)[ilocs] for v in value_list]), index=out_index, columns=col_names, copy=False)", name="P17 selected rows assembled through one 2-D block")
-add("P18", "break", NANOPS, "reduce_1d", "list(zip(np.array_split(arr, n_threads)))", "[(arr[i * (len(arr) // n_threads):(i + 1) * (len(arr) // n_threads)],) for i in range(n_threads)]", name="P18 inline floor-division chunks (no local)", accept_error=True)
+add("P18", "break", NANOPS, "reduce_1d", "list(zip(np.array_split(arr, n_threads)))", "[(arr[i * (len(arr) // n_threads):(i + 1) * (len(arr) // n_threads)],) for i in range(n_threads)]", name="P18 inline floor-division chunks (no local)")
 add("P18", "break", NANOPS, "reduce_1d", "        chunks = parallel_map(lambda a: _nb_reduce(reduce_func=reduce_func, arr=a, **kwargs), list(zip(np.array_split(arr, n_threads))))\n", "        chunk_len = len(arr) // n_threads\n        chunks = parallel_map(lambda a: _nb_reduce(reduce_func=reduce_func, arr=a, **kwargs), [(arr[i * chunk_len:(i + 1) * chunk_len],) for i in range(n_threads)])\n", name="P18 equal-length chunks drop the tail")
 add("P19", "break", UTIL, "pretty_cut", "    sort_key = np.argsort(numeric_bins)\n    bins = bins[sort_key]\n    numeric_bins = numeric_bins[sort_key]\n", "    bins = np.sort(bins)\n", name="P19 labels sorted, searched edges left in the caller's order")
 add("P19", "keep", UTIL, "pretty_cut", "    sort_key = np.argsort(numeric_bins)\n    bins = bins[sort_key]\n    numeric_bins = numeric_bins[sort_key]\n", "    order = numeric_bins.argsort()\n    bins = bins[order]\n    numeric_bins = numeric_bins[order]\n", name="P19 argsort as a method, key renamed")
@@ -549,23 +549,23 @@ add("W1", "break", NB, "_rolling_sum_or_mean_1d", "            group_buffers[key
 add("W1", "keep", NB, "_rolling_sum_or_mean_1d", "group_positions[key] = (pos + 1) % window", "group_positions[key] = (1 + pos) % window", name="W1 commuted increment")
 add("W1", "keep", NB, "_rolling_max_or_min_1d", "            new_position = (pos + 1) % window\n            group_buffer_pos[key] = new_position\n", "            group_buffer_pos[key] = (pos + 1) % window\n", name="W1 position update inlined")
 add("W2", "break", NB, "_rolling_sum_or_mean_1d", "if group_non_null[key] >= min_periods:", "if group_non_null[key] > min_periods:", name="W2 emission needs one value too many")
-add("W2", "break", NB, "_rolling_max_or_min_1d", "if group_non_null[key] >= min_periods:", "if group_n_seen[key] >= min_periods:", name="W2 emission counts rows, not non-null values", accept_error=True)
+add("W2", "break", NB, "_rolling_max_or_min_1d", "if group_non_null[key] >= min_periods:", "if group_n_seen[key] >= min_periods:", name="W2 emission counts rows, not non-null values")
 add("W2", "break", NB, "_rolling_sum_or_mean_1d", "    if min_periods is None:\n        min_periods = window\n", "    if min_periods is None:\n        min_periods = 1\n", name="W2 min_periods defaults to 1")
 add("W2", "break", NB, "_rolling_sum_or_mean_1d", "            group_buffers[key, pos] = val\n", "", also=((NB, "_rolling_sum_or_mean_1d", "            group_full = group_n_seen[key] >= window\n", "            group_full = group_n_seen[key] >= window\n            group_buffers[key, pos] = val\n"),), name="W2 new value stored before the evicted one is read", expect_func="*")
 
 # --------------------------------------------------------------------------------------------- H1 H2
 add("H1", "break", NB, "_find_nth", "        if seen[k] == n:\n            assert out[k] == -1\n            out[k] = i\n        seen[k] += 1\n", "        seen[k] += 1\n        if seen[k] == n:\n            assert out[k] == -1\n            out[k] = i\n", name="H1 counter incremented before the comparison (nth off by one)")
-add("H1", "break", NB, "_find_nth", "if seen[k] == n:", "if seen[k] >= n:", name="H1 nth records every later occurrence", accept_error=True)
+add("H1", "break", NB, "_find_nth", "if seen[k] == n:", "if seen[k] >= n:", name="H1 nth records every later occurrence")
 add("H1", "break", NB, "_find_nth", "        n = -n - 1\n", "        n = -n\n", name="H1 negative n not shifted by one")
 add("H1", "break", NB, "_find_first_or_last_n", "        if j < n:", "        if j <= n:", name="H1 head stores n+1 rows (slot out of range)")
 add("H1", "keep", NB, "_find_nth", "        n = -n - 1\n", "        n = -1 - n\n", name="H1 n := -1 - n")
-add("H2", "break", CORE, "GroupBy._build_group_sorted_indexer_numba", "group_starts[i + 1] = group_starts[i] + group_counts[i]", "group_starts[i + 1] = group_starts[i] + group_counts[i + 1]", name="H2 group starts use the next group's count", accept_error=True)
-add("H2", "break", CORE, "GroupBy._build_group_sorted_indexer_numba", "                    indexer[pos] = i\n                    current_pos[k] += 1\n", "                    current_pos[k] += 1\n                    indexer[pos + 1] = i\n", name="H2 position advanced before the write", accept_error=True)
+add("H2", "break", CORE, "GroupBy._build_group_sorted_indexer_numba", "group_starts[i + 1] = group_starts[i] + group_counts[i]", "group_starts[i + 1] = group_starts[i] + group_counts[i + 1]", name="H2 group starts use the next group's count")
+add("H2", "break", CORE, "GroupBy._build_group_sorted_indexer_numba", "                    indexer[pos] = i\n                    current_pos[k] += 1\n", "                    current_pos[k] += 1\n                    indexer[pos + 1] = i\n", name="H2 position advanced before the write")
 add("H2", "break", CORE, "GroupBy._build_group_sorted_indexer_numba", "                    current_pos[k] += 1\n", "", name="H2 position never advanced")
 
 # --------------------------------------------------------------------------------------------- E5
 add("E5", "break", EMAS, "_ema_grouped", "out[i] = (x + residuals[k]) / (1 + residual_weights[k])", "out[i] = (x + residuals[k]) / residual_weights[k]", name="E5 denominator misses the current observation")
-add("E5", "break", EMAS, "_ema_grouped_timed", "            residual_weights[k] += 1\n", "            residual_weights[k] += beta\n", name="E5 weight grows by beta instead of 1", accept_error=True)
+add("E5", "break", EMAS, "_ema_grouped_timed", "            residual_weights[k] += 1\n", "            residual_weights[k] += beta\n", name="E5 weight grows by beta instead of 1")
 add("E5", "break", EMAS, "_ema_adjusted", "            residual += x\n", "", name="E5 numerator never accumulates the observation")
 add("E5", "break", EMAS, "_ema_time_weighted", "out[i] = (x + residual) / (1 + residual_weights)", "out[i] = (x + residual) / (2 + residual_weights)", name="E5 wrong normalisation constant")
 add("E5", "keep", EMAS, "_ema_grouped", "            residual_weights[k] += 1\n            residuals[k] += x\n", "            residuals[k] += x\n            residual_weights[k] += 1\n", name="E5 updates reordered")
@@ -594,7 +594,7 @@ add("L1", "break", CORE, "GroupBy._labels_argsort", "if self._sort and (not self
 add("L1", "keep", UTIL, ARGS, "        if isinstance(index.dtype, pd.CategoricalDtype) or index.is_monotonic_increasing:\n            return slice(None)\n        else:\n            return index.argsort()\n", "        if isinstance(index.dtype, pd.CategoricalDtype) or index.is_monotonic_increasing:\n            return slice(None)\n        return index.argsort()\n", name="L1 else removed (fall-through return)")
 add("L2", "break", CORE, "GroupBy._maybe_squeeze_to_1d", "if n_values == 1 and isinstance(values, ArrayType1D)", "if n_values == 1 or isinstance(values, ArrayType1D)", name="L2 one-column frames squeezed too")
 add("L2", "break", CORE, "GroupBy._maybe_squeeze_to_1d", "if get_array_name(values) is None:", "if get_array_name(values) is not None:", name="L2 named inputs lose their name")
-add("L2", "break", CORE, "GroupBy._maybe_squeeze_to_1d", "result = result[result.columns[0]]", "result = result[result.columns[-1]].rename(None)", name="L2 wrong column / name always cleared", accept_error=True)
+add("L2", "break", CORE, "GroupBy._maybe_squeeze_to_1d", "result = result[result.columns[0]]", "result = result[result.columns[-1]].rename(None)", name="L2 wrong column / name always cleared")
 
 # --------------------------------------------------------------------------------------------- round-2 rules (rules_z.py) and extensions
 add("W4", "break", NB, "_rolling_max_or_min_1d", "if group_full and need_recalc:", "if need_recalc:", name="W4 buffer rescanned before it is full")
@@ -604,7 +604,7 @@ add("E6", "break", EMAS, "ema_grouped", "        result = _ema_grouped(**nb_kwar
 add("E7", "break", EMAS, "_ema_grouped_timed", "last_seen_times = np.zeros(ngroups, dtype='int64')", "last_seen_times = np.zeros(ngroups, dtype='float64')", name="E7 float clock")
 add("E7", "keep", EMAS, "_ema_grouped_timed", "last_seen_times = np.zeros(ngroups, dtype='int64')", "last_seen_times = np.zeros(ngroups, dtype=np.int64)", name="E7 dtype spelled np.int64")
 add("P24", "break", EMAS, "_times_to_int_array", "    times, _ = _convert_timestamp_to_tz_unaware(times)\n    return times.view(np.int64)", "    return pd.DatetimeIndex(times).tz_localize(None).as_unit('ns').asi8", name="P24 zone dropped with tz_localize(None)")
-add("P24", "break", UTIL, "pretty_cut", "        numeric_bins = pd.to_timedelta(bins)\n", "        numeric_bins = pd.to_timedelta(bins).asi8\n", name="P24 .asi8 without unit normalisation", accept_error=True)
+add("P24", "break", UTIL, "pretty_cut", "        numeric_bins = pd.to_timedelta(bins)\n", "        numeric_bins = pd.to_timedelta(bins).asi8\n", name="P24 .asi8 without unit normalisation")
 add("P24", "keep", EMAS, "_times_to_int_array", "    times, _ = _convert_timestamp_to_tz_unaware(times)\n    return times.view(np.int64)", "    times, _ = _convert_timestamp_to_tz_unaware(times)\n    return pd.DatetimeIndex(times).as_unit('ns').asi8", name="P24 .asi8 after as_unit")
 add("M9", "break", CORE, ACROSS, "numba_funcs._build_target_for_groupby(results_one_value[0].dtype,", "numba_funcs._build_target_for_groupby(results[0].dtype,", name="M9 merge target typed by the first value column")
 add("D7c", "break", CORE, "GroupBy.var", "self.sum(values=values, **kwargs).to_numpy().astype(np.float64) ** 2", "self.sum(values=values, **kwargs).to_numpy() ** 2", name="D7c sums squared in their integer dtype")
